@@ -255,6 +255,10 @@ def _parser_parameter(name: str, fn, tree) -> bool:
                                         (isinstance(n.func, ast.Attribute) and n.func.attr == fn.name)):
             off = 1 if (isinstance(n.func, ast.Attribute) and params and params[0] in ("self", "cls")) else 0
             a = n.args[idx - off] if 0 <= idx - off < len(n.args) else next((k.value for k in n.keywords if k.arg == name), None)
+            if isinstance(a, ast.Lambda) and a.args.args and isinstance(a.body, ast.Call) and isinstance(a.body.func, ast.Attribute) \
+                    and a.body.func.attr in ("parse", "_unpack") and a.body.args and isinstance(a.body.args[0], ast.Name) \
+                    and a.body.args[0].id == a.args.args[0].arg:
+                a = a.body.func  # lambda b: X.parse(b, ...)
             if not (isinstance(a, ast.Attribute) and a.attr in ("parse", "_unpack")):
                 return False
             sites += 1
